@@ -1,7 +1,7 @@
 from __future__ import annotations
 import zlib
 from ..rfc7516.models import JWEZipModel
-from ..errors import ExceededSizeError
+from ..errors import ExceededSizeError, DecodeError
 
 GZIP_HEAD = bytes([120, 156])
 MAX_SIZE = 250 * 1024
@@ -24,9 +24,13 @@ class DeflateZipModel(JWEZipModel):
             decompressor = zlib.decompressobj()
         else:
             decompressor = zlib.decompressobj(-zlib.MAX_WBITS)
-        value = decompressor.decompress(s, MAX_SIZE)
-        # all input may be consumed while output is still pending inside zlib
-        if decompressor.unconsumed_tail or decompressor.decompress(b"", 1):
+        try:
+            value = decompressor.decompress(s, MAX_SIZE)
+            # all input may be consumed while output is still pending inside zlib
+            exceeded = decompressor.unconsumed_tail or decompressor.decompress(b"", 1)
+        except zlib.error:
+            raise DecodeError("Invalid compressed data")
+        if exceeded:
             raise ExceededSizeError(f"Decompressed string exceeds {MAX_SIZE} bytes")
         return value
 
